@@ -1,6 +1,7 @@
 // E2 harness for C19: suspend / resume of pools and processing units on the live runtime.
 // usage: e2_elastic <seed> <perturb_per_1024> <prog> <size> <wthreads> <policy> <elastic 0|1> [pika options...]
 //   prog: pu      - random suspend/resume of single PUs of an elastic pool (one PU is never suspended)
+//         pupool  - adjacent PUs suspended individually, then suspend_direct / resume_direct of the whole pool
 //         yieldpoll - a yield()-polling task on the PU being suspended (flag raised after the suspend call returned)
 //         strand  - submitters hinted to worker k held between select_active_pu and the enqueue while k is suspended
 //         race    - suspend of a PU answered by a resume the moment the PU reads `sleeping`, worker held in the
@@ -620,6 +621,41 @@ static int prog_yieldpoll(rng& r, int size)
     return wait_until(all_done);
 }
 
+// mixed histories: some PUs are suspended individually (also NEIGHBOURING ones), then the whole pool is suspended while they are
+// still asleep, work is submitted to the sleeping pool, the pool is resumed and must be complete again
+static int prog_pupool(rng& r, int size)
+{
+    int rc = 0;
+    for (int c = 0; c < 2 + size / 4 && rc == 0; ++c)
+    {
+        // a run of 1..g_n-1 adjacent PUs starting at a random index (at least one PU stays awake)
+        int len = 1 + int(r.below(std::uint32_t(g_n - 1)));
+        int first = int(r.below(std::uint32_t(g_n)));
+        std::vector<int> down;
+        for (int i = 0; i < len; ++i) down.push_back((first + i) % g_n);
+        for (int w : down)
+            if (api(op_suspend_pu, w)) monitor("supported suspend_processing_unit failed");
+        for (int i = 0; i < 6; ++i) submit(r.next(), 1);
+        rc = wait_until(all_done);
+        if (rc != 0) break;
+        auto done = std::make_shared<std::atomic<int>>(-1);
+        std::vector<std::thread> os;
+        run_on(0, os, [=] { done->store(api(op_suspend_pool, 0, false)); });
+        rc = wait_until([&] { return done->load() >= 0 && g_ctl_running.load() == 0; });
+        if (rc == 1 || rc == 2) monitor("suspend_direct did not return while " + std::to_string(len) + " adjacent PU(s) were already suspended");
+        for (auto& t : os)
+            if (rc == 0) t.join();
+            else t.detach();
+        if (rc != 0) break;
+        if (done->load() != 0) monitor("suspend_direct of another pool failed");
+        for (int i = 0; i < 6; ++i) submit(r.next(), 1);
+        if (api(op_resume_pool, 0, r.below(3) == 0)) monitor("resume_direct failed");
+        if (active() != g_n) monitor("after resume_direct only " + std::to_string(active()) + " of " + std::to_string(g_n) + " PUs are active");
+        rc = wait_until(all_done);
+    }
+    return rc;
+}
+
 static int prog_race(rng& r, int size)
 {
     int keep = int(r.below(std::uint32_t(g_n)));
@@ -736,6 +772,7 @@ int main(int argc, char** argv)
     else if (prog == "race") rc = prog_race(r, size);
     else if (prog == "strand") rc = prog_strand(r, size);
     else if (prog == "yieldpoll") rc = prog_yieldpoll(r, size);
+    else if (prog == "pupool") rc = prog_pupool(r, size);
     else rc = prog_refuse(r, size, elastic, stealing);
 
     if (rc == 0)
